@@ -76,6 +76,31 @@ class Event:
         return getattr(self.node, "lineno", 0)
 
 
+class LoopTable(dict):
+    """Loops of a summary.  A loop that can be left by ``break`` is only handed out through ``raw`` (used by the loop-closing step, which marks
+    such loops in the closed term); a structural rule that consults it directly gets 'cannot decide' instead of a possibly wrong reading."""
+
+    def _chk(self, lp):
+        if lp is not None and getattr(lp, "breaks", None):
+            raise AnalysisBroken(f"loop at line {getattr(lp.node, 'lineno', '?')} can be left by 'break': outside the idiom list of this rule; cannot decide")
+        return lp
+
+    def __getitem__(self, k):
+        return self._chk(dict.__getitem__(self, k))
+
+    def get(self, k, d=None):
+        return self._chk(dict.get(self, k, d))
+
+    def values(self):
+        return [self._chk(v) for v in dict.values(self)]
+
+    def items(self):
+        return [(k, self._chk(v)) for k, v in dict.items(self)]
+
+    def raw(self, k):
+        return dict.get(self, k)
+
+
 @dataclass
 class LoopInfo:
     lid: tuple
@@ -89,6 +114,7 @@ class LoopInfo:
     node: ast.AST
     tree: object = None
     target_names: tuple = ()
+    breaks: tuple = ()      # ((condition of the break relative to the loop body, {name: value there}), ...)
 
 
 @dataclass
@@ -319,10 +345,11 @@ class Evaluator:
         self.cls = cls
         self.tag = tag
         self.events: list[Event] = []
-        self.loops: dict = {}
+        self.loops: dict = LoopTable()
         self.unbound: list = []
         self._n = 0
         self.scopes: list[dict] = []   # stack of {"locals": set, "globals": set}
+        self.break_stack: list[list] = []  # per open loop: [(guards at the break, env there)]
         self.cont_stack: list[list] = []   # per open loop: [(guards at the continue, env there)]
 
     # ---- ids
@@ -728,7 +755,10 @@ class Evaluator:
         return env, CONT
 
     def s_Break(self, st, env, ctx):
-        raise AnalysisBroken(f"'break' at line {st.lineno}: outside the evaluator's idiom list")
+        if not self.break_stack:
+            raise AnalysisBroken(f"'break' at line {st.lineno} outside a loop")
+        self.break_stack[-1].append((ctx.guards, dict(env)))
+        return env, CONT
 
     def s_FunctionDef(self, st, env, ctx):
         lam = self.make_lam(st, st.args, st.body, env, ctx)
@@ -790,10 +820,14 @@ class Evaluator:
             info.iterable = cond
             lctx = lctx.guard(cond, True)
         self.cont_stack.append([])
+        self.break_stack.append([])
         try:
             eend, tree = self.block(body, benv, lctx)
         finally:
             conts = self.cont_stack.pop()
+            brks = self.break_stack.pop()
+        if brks and st.orelse:
+            raise AnalysisBroken(f"loop with 'break' and 'else' at line {st.lineno}: outside the evaluator's idiom list")
         info.update = {}
         base = len(lctx.guards)
         for name in assigned:
@@ -812,6 +846,13 @@ class Evaluator:
                 val = ("ite", cond, cv, val)
             info.update[name] = val
         info.tree = tree
+        bl = []
+        for guards, benv_ in brks:
+            extra = guards[len(lctx.guards):]
+            conj = [(g if pol else ("un", "not", g)) for g, pol in extra]
+            cond = TRUE if not conj else conj[0] if len(conj) == 1 else ("and", tuple(conj))
+            bl.append((cond, tuple(sorted(((n, benv_.get(n, ("undef", n))) for n in assigned), key=lambda kv: kv[0]))))
+        info.breaks = tuple(bl)
         out = dict(env)
         for name in assigned | set(tnames):
             out[name] = ("after", lid, name)
